@@ -23,7 +23,8 @@ RULE = ("Part A (schedules): retries r in 1..4, every pattern of per-transmissio
         "Part B (fault sequences, E2): every single fault and every ordered pair of consecutive faults from {drop, all answers late (arriving only after the exchange gave up), error packet, "
         "marker-free garbage, marker-bearing garbage, peer close} x {handshake, data phase}, connect refused / unreachable / unresolvable / hanging, "
         "cancellation at every interval between loop events, from start states {cold, warm, peer-closed idle, auth expired}; "
-        "then one exchange with an honest prompt device must succeed with no user call in between (V3: after a new handshake). "
+        "then one exchange with an honest prompt device must succeed with no user call in between (V3: after a new handshake). Also: a two-exchange "
+        "refresh whose first exchange alone meets each fault; a connection that carried > 65536 packets before its authentication expired. "
         "state = (protocol, start, fault history) ; transition = one exchange")
 ASSUMPTIONS = ["operations of a history do not overlap", "answer delays are off the 2 s grid so no environment event ties with a library timer",
                "the user has authenticated once (honestly) before faults start; re-authentication afterwards is the library's job"]
@@ -77,6 +78,8 @@ def shards(tier):
         for start in range(4 if v == 3 else 3):
             for part in range(4):
                 out.append(("B", v, start, part, 4))
+        out.append(("B1", v, 1, 0, 1))
+    out.append(("Bworn", 3, 4, 0, 1))
     return out
 
 
@@ -262,10 +265,10 @@ def garbage(version, marker) -> bytes:
     return b"\x00\x83\x70\x00\x10\x20\x03" + filler("c08/g3", 30)
 
 
-STARTS = ["cold", "warm", "closed", "expired"]
+STARTS = ["cold", "warm", "closed", "expired", "worn-expired"]
 
 
-def exec_B(version, start, seq, cancel_spec=None, trace_op=None):
+def exec_B(version, start, seq, cancel_spec=None, trace_op=None, once=False, energy=False):
     """seq: list of fault descriptors (or ("cancel", k)); a final honest exchange follows.
 
     cancel_spec: {op_index: instant} cancels exchange op_index at that absolute instant.
@@ -280,6 +283,8 @@ def exec_B(version, start, seq, cancel_spec=None, trace_op=None):
         f = cur["fault"]
         if f is not None and f[1] == req.kind:
             kind = f[0]
+            if once:
+                cur["fault"] = None         # only the first request of the operation is hit
             if kind == "drop":
                 return
             if kind == "late":
@@ -320,6 +325,8 @@ def exec_B(version, start, seq, cancel_spec=None, trace_op=None):
     w.net.listen(IP, PORT, dev)
     w.net.connect_policy = policy
     ac = AC(ip=IP, port=PORT, device_id=5)
+    if energy:
+        ac.enable_energy_usage_requests = True      # a refresh is then two exchanges (state, energy)
     log = []
     instants = {}
 
@@ -363,6 +370,15 @@ def exec_B(version, start, seq, cancel_spec=None, trace_op=None):
             w.net.conns[-1].peer_close(0.001)
             await asyncio.sleep(0.01)
         if s == "expired":
+            w.loop.jump(13 * 3600)
+        if s == "worn-expired":
+            # the connection has carried more than 2^16 packets when its authentication expires
+            await ac.refresh()
+            dev.on_enc_request = lambda conn, p, entry: None
+            for _ in range(66000):
+                ac._lan._protocol.write(b"\xaa\x01\x02")
+            dev.on_enc_request = None
+            await asyncio.sleep(0.05)
             w.loop.jump(13 * 3600)
         marks = {"faults_from": len(dev.rx)}
         for i, f in enumerate(seq):
@@ -474,10 +490,57 @@ def run_B(st: Stats, version, start, part, nparts, triples=False):
     st.reruns += det.reruns
 
 
+def run_B1(st: Stats, version):
+    """A refresh made of two exchanges (state + energy query) whose FIRST exchange alone meets the fault: the second exchange,
+    answered promptly, must succeed within the same refresh (the device is online, its energy data is read)."""
+    for start in range(4 if version == 3 else 3):
+        for f in faults(version):
+            if f[1] != "data":
+                continue
+            case = {"part": "B1", "version": version, "start": STARTS[start], "seq": [list(map(str, f))], "once": True}
+            out, log, dev, ac, net, _ = exec_B(version, start, [f], once=True, energy=True)
+            prob = None
+            if out[0] != "ok":
+                prob = f"driver ended with {exc_class(out)}"
+            elif log[0][0] != "returned":
+                prob = f"refresh whose first exchange met {f[0]} raised {log[0][0]}"
+            elif not log[0][1]:
+                prob = f"device reported offline although the exchange after the failed one ({f[0]}) was answered promptly"
+            elif log[-1] != ("returned", True):
+                prob = f"following refresh: {log[-1]}"
+            if prob:
+                st.violation(f"B1 v{version} {f[0]}: " + prob.split("(")[0][:80], case, "the next exchange succeeds", prob, f"log={log}")
+            st.state(("B1", version, start, f))
+            st.transitions += 2
+            st.ev(("B1", version, start, f), "/".join(r for r, _ in log), True)
+
+
+def run_Bworn(st: Stats):
+    for seq in ([], [("drop", "data")], [("close", "handshake")], [("error", "data")]):
+        case = {"part": "B", "version": 3, "start": "worn-expired", "seq": [list(map(str, f)) for f in seq], "cancel": {}}
+        out, log, dev, ac, net, _ = exec_B(3, 4, seq)
+        prob = None
+        if out[0] != "ok":
+            prob = f"driver ended with {exc_class(out)}"
+        elif any(r not in ("returned",) for r, _ in log):
+            prob = f"an exchange raised {[r for r, _ in log if r != 'returned'][0]}"
+        elif not log[-1][1]:
+            prob = "final exchange with an honest prompt device found it offline"
+        if prob:
+            st.violation("B v3 worn connection (>65536 packets) + expired authentication: " + prob[:70], case, "final exchange succeeds unaided", prob, f"log={log}")
+        st.state(("Bworn", tuple(seq)))
+        st.transitions += len(seq) + 1
+        st.ev(("Bworn", tuple(map(str, seq))), "/".join(r for r, _ in log), True)
+
+
 def run_shard(shard, tier) -> Stats:
     st = Stats()
     kind, version, a, part, nparts = shard
-    if kind == "A":
+    if kind == "B1":
+        run_B1(st, version)
+    elif kind == "Bworn":
+        run_Bworn(st)
+    elif kind == "A":
         run_A(st, version, a, part, nparts)
     elif kind == "AT":
         run_A(st, version, a, part, nparts, alphabet=FRACTIONS_T)
@@ -498,5 +561,6 @@ def replay(case):
         return {"outcome": str(out)[:200], "tx": tx, "model": model_A(case["retries"], delays, read_timeout(case["version"]))}
     seq = [tuple(None if x == "None" else x for x in f) if f else None for f in case["seq"]]
     spec = {int(k): v for k, v in case.get("cancel", {}).items()} or None
-    out, log, dev, ac, net, _ = exec_B(case["version"], STARTS.index(case["start"]), seq, spec)
+    out, log, dev, ac, net, _ = exec_B(case["version"], STARTS.index(case["start"]), seq, spec, once=case.get("once", False),
+                                       energy=case.get("once", False))
     return {"outcome": str(out)[:200], "log": log, "connects": net.connect_attempts}
